@@ -348,6 +348,24 @@ def check_section_end(chk, v, parser_name):
                     derived.add(args[0].get("id"))
             if n.get("k") == "var" and n.get("init") is not None and _refs(n["init"]) & derived:
                 derived.add(n.get("id"))
+            if n.get("k") == "mcall" and n.get("method") in ("assign", "append", "operator+=", "insert", "replace", "push_back", "operator="):
+                # s.assign("-----END ").append(title).append("-----"): the string at the bottom of the call chain is built from
+                # every argument of the chain
+                base = n
+                while isinstance(base, dict) and base.get("k") == "mcall":
+                    base = base.get("obj")
+                while isinstance(base, dict) and base.get("k") == "cast":
+                    base = base.get("a")
+                if isinstance(base, dict) and base.get("k") == "ref" and "id" in base:
+                    others = set()
+                    m_ = n
+                    while isinstance(m_, dict) and m_.get("k") == "mcall":
+                        for a_ in m_.get("args") or []:
+                            if isinstance(a_, dict):
+                                others |= _refs(a_)
+                        m_ = m_.get("obj")
+                    if others & derived:
+                        derived.add(base["id"])
 
     def returns_with_conditions(n, conds, out):
         if isinstance(n, list):
@@ -358,8 +376,18 @@ def check_section_end(chk, v, parser_name):
             return
         k = n.get("k")
         if k == "if":
-            returns_with_conditions(n.get("then"), conds + [(n.get("c"), True)], out)
-            returns_with_conditions(n.get("else"), conds + [(n.get("c"), False)], out)
+            def parts(c, pol):
+                """the conditions a branch establishes: both operands of a taken `&&`, of a refused `||`; through casts and `!`"""
+                while isinstance(c, dict) and c.get("k") == "cast":
+                    c = c.get("a")
+                if isinstance(c, dict) and c.get("k") == "un" and c.get("op") == "!" and isinstance(c.get("a"), dict) and \
+                        c["a"].get("k") in ("bin", "un", "cast", "opcall") and not (c["a"].get("k") == "cast" and c["a"]["a"].get("k") == "mcall"):
+                    return parts(c["a"], not pol)
+                if isinstance(c, dict) and c.get("k") == "bin" and ((c.get("op") == "&&" and pol) or (c.get("op") == "||" and not pol)):
+                    return parts(c.get("a"), pol) + parts(c.get("b"), pol)
+                return [(c, pol)]
+            returns_with_conditions(n.get("then"), conds + parts(n.get("c"), True), out)
+            returns_with_conditions(n.get("else"), conds + parts(n.get("c"), False), out)
             return
         if k == "return":
             out.append((n, conds))
